@@ -10,7 +10,8 @@ from . import c03 as A
 
 ID = 'C08'
 TITLE = 'timeseries operators equal the pointwise operation on aligned operands'
-LEAN_FILES = ['Basic', 'TSBasic', 'Fill', 'FillDriver', 'Align', 'AlignDriver', 'Ops', 'OpsDriver', 'FillLemmas', 'AlignLemmas', 'OpsLemmas', 'C08']
+LEAN_FILES = ['Basic', 'TSBasic', 'Fill', 'FillDriver', 'Align', 'AlignDriver', 'Ops', 'OpsF', 'OpsX', 'OpsDriver', 'FillLemmas', 'AlignLemmas', 'OpsLemmas',
+              'OpsFLemmas', 'C08']
 RULE = ('distinct protocol lines (operator / aggregate, operands, index policy, fill method) on which the implementation returned a '
         'value and at least two Series operands with different indices are involved')
 TRUSTED = ['correspondence harness (pv.engine, pv.proto, pv.props._w5ts) and generators of pv.props.c08',
@@ -33,6 +34,8 @@ METHODS = ['N', 'N', 'ffill', 'bfill']
 # ------------------------------------------------------------------ wire
 
 def enc_in(x):
+    if isinstance(x, pd.DataFrame):
+        return '(df %s)' % W.enc_frame(x, S)
     if isinstance(x, pd.Series):
         return '(ts %s)' % W.enc_series(x, S)
     if isinstance(x, list):
@@ -47,6 +50,8 @@ def dec_in(sx):
         return None
     if sx[0] == 'ts':
         return W.dec_series(sx[1], S)
+    if sx[0] == 'df':
+        return W.dec_frame(sx[1], S)
     if sx[0] == 'num':
         v = W.dec_v(sx[1], S)
         return int(v) if v == int(v) and int(v) % 2 == 1 else v     # odd whole numbers travel as python ints
@@ -65,9 +70,15 @@ def enc_q(v):
     return 'Q:%d/%d' % (q.numerator, q.denominator)
 
 
-def enc_out(r):
+def enc_out(r, sort_columns=False):
     if r is None:
         return 'N'
+    if isinstance(r, pd.DataFrame):
+        cols = list(range(r.shape[1]))
+        if sort_columns:        # the aggregates: the order of the joint columns is pandas' business (Index.union / intersection)
+            cols.sort(key=lambda j: str(r.columns[j]))
+        return '(df (T (L%s) (D%s)))' % (''.join(' ' + W.enc_t(t) for t in r.index),
+                                         ''.join(' (%s (L%s))' % (proto.hexs(str(r.columns[j])), ''.join(' ' + enc_q(v) for v in r.iloc[:, j].values)) for j in cols))
     if isinstance(r, pd.Series):
         return '(ts (L' + ''.join(' (T %s %s)' % (W.enc_t(t), enc_q(v)) for t, v in zip(r.index, r.values)) + '))'
     if isinstance(r, (int, float, np.integer, np.floating)):
@@ -92,7 +103,103 @@ def rand_operands(rng, k, vals):
     return out, rel
 
 
+COLSETS = [['a', 'b'], ['a', 'b'], ['a', 'b', 'c'], ['b', 'c'], ['b', 'a'], ['c', 'd'], ['b', 'd', 'a'], ['c', 'a', 'b']]
+ONECOL = [['z'], ['a'], ['z'], ['w']]
+
+
+def rand_frame(rng, days, vals, names, nan_rate=0.18):
+    data = {c: [nan if rng.random() < nan_rate else rng.choice(vals) for _ in days] for c in names}
+    for i in range(len(days)):
+        if rng.random() < 0.15:          # rows that are entirely NaN: `_nona` drops them before an as-of reindex
+            for c in names:
+                data[c][i] = nan
+    return pd.DataFrame({c: np.array(v, dtype=float) for c, v in data.items()}, index=pd.DatetimeIndex([W.day(d) for d in days]), columns=names, dtype=float)
+
+
+def rand_fdays(rng, k):
+    rel = rng.choice(['disjoint', 'nested', 'super', 'overlap', 'overlap', 'overlap', 'empty', 'same'])
+    base = A.rand_days(rng, 'overlap', [])
+    out = [base]
+    for j in range(1, k):
+        out.append(list(base) if rel == 'same' else A.rand_days(rng, rel if (rel != 'empty' or j == 1) else 'overlap', base))
+    rng.shuffle(out)
+    return out, rel
+
+
+def rand_colsets(rng, k):
+    crel = rng.choice(['same', 'any', 'any', 'any', 'perm'])
+    first = rng.choice(COLSETS)
+    out = [first]
+    for _ in range(1, k):
+        if crel == 'same':
+            out.append(list(first))
+        elif crel == 'perm':
+            c = list(first)
+            rng.shuffle(c)
+            out.append(c)
+        else:
+            out.append(rng.choice(COLSETS))
+    return out, crel
+
+
+def gen_frames(rng, tier):
+    n = 700 if tier == 'quick' else 16000
+    for _ in range(n):
+        op = rng.choice(OPS)
+        how, m, ch = rng.choice(HOWS), rng.choice(METHODS), rng.choice(['ij', 'oj'])
+        shape = rng.choice(['df-df', 'df-df', 'df-df', 'df-df', 'df-ts', 'ts-df', 'df-num', 'num-df', 'df1-df', 'df-df1', 'df1-df1', 'df1-ts', 'ts-df1',
+                            'df1-num', 'list-none', 'list-none', 'list-df', 'df-list', 'mix-list'])
+        k = 2 if '-list' not in shape and 'list-' not in shape else rng.choice([3, 3, 4])
+        days, rel = rand_fdays(rng, k)
+        cs, crel = rand_colsets(rng, k)
+        if k > 2 and ch == 'ij' and m != 'N':
+            # not modelled: frames without a common column give `pd.Series({})` (object dtype, no datetime index); reducing on with a
+            # fill method makes `_nona` raise TypeError on it (np.isnan of an object array) - see docs/notes/C08.md
+            cs = [c if 'b' in c else ['b', 'c'] for c in cs]
+        num = lambda: rng.choice([0.0, 1.0, 2.0, -0.5, 4.0, 1, 0.25])
+        dnum = lambda: rng.choice(DIVS)
+
+        def mk(kind, j, div=False):
+            vals = DIVS if div else VALS
+            if kind == 'df':
+                return rand_frame(rng, days[j], vals, cs[j])
+            if kind == 'df1':
+                return rand_frame(rng, days[j], vals, rng.choice(ONECOL))
+            if kind == 'ts':
+                return rand_series(rng, days[j], vals)
+            return dnum() if div else num()
+        if shape in ('list-none', 'list-df', 'df-list', 'mix-list'):
+            kinds = ['df'] * k if shape != 'mix-list' else [rng.choice(['df', 'df', 'ts', 'num', 'df1']) for _ in range(k)]
+            if shape == 'list-none':
+                if op in ('sub', 'div'):
+                    op = rng.choice(['add', 'mul'])
+                a, b = [mk(kinds[j], j) for j in range(k)], None
+            elif shape == 'df-list':
+                a, b = mk('df', 0), [mk(kinds[j], j, op == 'div') for j in range(1, k)]
+            else:
+                a, b = [mk(kinds[j], j) for j in range(k - 1)], mk(kinds[-1], k - 1, op == 'div')
+        else:
+            ka, kb = shape.split('-')
+            a, b = mk(ka, 0), mk(kb, 1, op == 'div')
+        yield dict(tag='binf/%s/%s/%s/%s/%s/%s/%s' % (op, shape, rel, crel, how, m, ch),
+                   lines=['(ops binf %s %s %s %s %s %s)' % (op, enc_in(a), enc_in(b), how, m, ch)])
+    n = 250 if tier == 'quick' else 6000
+    for _ in range(n):
+        g = rng.choice(['sum', 'mean', 'count'])
+        k = rng.choice([1, 2, 2, 3, 4])
+        days, rel = rand_fdays(rng, k)
+        cs, crel = rand_colsets(rng, k)
+        fs = [rand_frame(rng, days[j], MEANV if g == 'mean' else VALS, cs[j]) for j in range(k)]
+        how, m, ch = rng.choice(['oj', 'oj', 'oj', 'ij']), rng.choice(['N', 'N', 'ffill', 'bfill']), rng.choice(['oj', 'oj', 'ij'])
+        yield dict(tag='aggf/%s/%d/%s/%s/%s/%s/%s' % (g, k, rel, crel, how, m, ch), lines=['(ops aggf %s %s %s %s %s)' % (g, enc_in(fs), how, m, ch)])
+
+
 def generate(rng, tier):
+    yield from gen_series(rng, tier)
+    yield from gen_frames(rng, tier)
+
+
+def gen_series(rng, tier):
     n = 900 if tier == 'quick' else 20000
     for _ in range(n):
         op = rng.choice(OPS)
@@ -152,6 +259,20 @@ def run_line(state, sx):
         if not A.same_tree(xs, before):
             return 'violation input-modified'
         return 'ok ' + enc_out(res)
+    if op == 'binf':
+        a, b = dec_in(args[1]), dec_in(args[2])
+        before = A.snapshot_tree([a, b])
+        res = _fn(args[0] + '_')(a, b, join=args[3], method=A.dec_method(args[4]), columns=args[5])
+        if not A.same_tree([a, b], before):
+            return 'violation input-modified'
+        return 'ok ' + enc_out(res)
+    if op == 'aggf':
+        xs = dec_in(args[1])
+        before = A.snapshot_tree(xs)
+        res = _fn('df_' + args[0])(xs, join=args[2], method=A.dec_method(args[3]), columns=args[4])
+        if not A.same_tree(xs, before):
+            return 'violation input-modified'
+        return 'ok ' + enc_out(res, sort_columns=True)
     if op == 'frames':     # DataFrame operands: not in the Lean model, checked against the python reference of the statement
         bad = check_frames(args[0], W.dec_frame(args[1], S), W.dec_frame(args[2], S), args[3], args[4])
         return 'violation ' + bad if bad else 'ok frames-checked'
@@ -171,7 +292,7 @@ def compare(case, i, line, ir, mr):
 
 
 def nontrivial(line, reply):
-    return reply.startswith('ok') and line.count('(ts ') >= 2
+    return reply.startswith('ok') and line.count('(ts ') + line.count('(df ') >= 2
 
 
 # ------------------------------------------------------------------ the statement, checked directly on the implementation
